@@ -110,8 +110,9 @@ def digest (ms : List Bytes) : String :=
     ((le64 m.length).foldl (fun h c => (h ^^^ c.toUInt64) * 1099511628211) h)) 14695981039346656037
   s!"{ms.length}:{h}"
 
-def step (_ : Unit) (toks : List String) : Unit × String :=
-  ((), match toks with
+/-- everything but the recycled-receiver flag of a command line (see `step`) -/
+def stepPure (toks : List String) : String :=
+  (match toks with
   | ["msg", "S", d, l, i] => (match parseBytes d, l.toNat?, i.toNat? with
     | some d, some l, some i =>
       let c : SnapshotChunk := ⟨d, l, i⟩
@@ -120,15 +121,6 @@ def step (_ : Unit) (toks : List String) : Unit × String :=
     | _, _, _ => "bad-op")
   | "msg" :: "K" :: rest => (match pKV ("K" :: rest) with
     | some (kv, []) => s!"ok {hx kv.enc} {b2s (KeyValue.dec kv.enc == some kv)} 1"
-    | _ => "bad-op")
-  | "msg" :: "C" :: rest => (match pCommand ("C" :: rest) with
-    | some (c, []) =>
-      -- the Lean decoder (the one `c18_command_message` is about) run on the encoding: it must
-      -- give a command with the same encoding back (equal commands, by `c18_command_injective`)
-      let back := match Command.decode c.depth c.enc with
-        | some c' => c'.enc == c.enc
-        | none => false
-      s!"ok {hx c.enc} {b2s back} 1"
     | _ => "bad-op")
   | ["file", seed, n, mn, mx] => (match seed.toNat?, n.toNat?, mn.toNat?, mx.toNat? with
     | some seed, some n, some mn, some mx =>
@@ -151,5 +143,25 @@ def step (_ : Unit) (toks : List String) : Unit × String :=
   | "compress" :: _ => "ok"
   | ["kf", "K7", "pooled-command"] => "ok mismatch || ok same"
   | _ => "bad-op")
+
+
+/-- the state is the batch of the previous command line: the harness fills the recycled receiver
+with the previous generated command, so these are the objects `ResetVT` retains; the third flag of
+a command line is the model's decode of the batch into them (`batchInto`, theorem
+`c18_recycled_batch`: always the original) -/
+def step (prev : List KeyValue) (toks : List String) : List KeyValue × String :=
+  match toks with
+  | "msg" :: "C" :: rest => (match pCommand ("C" :: rest) with
+    | some (c, []) =>
+      -- the Lean decoder (the one `c18_command_message` is about) run on the encoding: it must
+      -- give a command with the same encoding back (equal commands, by `c18_command_injective`)
+      let back := match Command.decode c.depth c.enc with
+        | some c' => c'.enc == c.enc
+        | none => false
+      let batch := match c with | .mk _ _ _ _ batch _ _ _ _ _ => batch
+      let pooled := batchInto (prev.map KeyValue.reset) (batch.map KeyValue.enc) == some batch
+      (batch, s!"ok {hx c.enc} {b2s back} {b2s pooled}")
+    | _ => (prev, "bad-op"))
+  | _ => (prev, stepPure toks)
 
 end Regatta.Driver.WireMode
